@@ -8,6 +8,7 @@ import (
 	"io"
 	"math/rand"
 	"net"
+	"reflect"
 	"runtime"
 	"sort"
 	"strconv"
@@ -15,6 +16,7 @@ import (
 	"sync"
 	"sync/atomic"
 	"time"
+	"unsafe"
 
 	libio "github.com/fatedier/golib/io"
 	"github.com/samber/lo"
@@ -26,6 +28,7 @@ import (
 	"github.com/fatedier/frp/pkg/util/util"
 	"github.com/fatedier/frp/pkg/util/version"
 	"github.com/fatedier/frp/server"
+	"github.com/fatedier/frp/server/controller"
 	"github.com/fatedier/frp/server/visitor"
 )
 
@@ -58,15 +61,24 @@ import (
 // after which they ran.  conn / vbegin behind a waiting writer are not executed (`wouldblock`).
 //
 //	natv <name> <ts> <sign> <user> pc=<b> ua=<b>    => preok | sid:<lid> | err:<kind>, then " left=<sessions stored afterwards>"
+//	natflood <name> <ts> <sign> <user> pc=<b> ua=<b> <k>  => <answer>*<k> | mixed:<answers> , then " left=…": k identical
+//	                                                   requests handled CONCURRENTLY by HandleVisitor
+//
+// left = sessions in the controller's own table (VerifSessions) that do not belong to a granted visit whose handler is
+// still running: "a refused request leaves no session state behind" is evaluated on it by the driver.
 //
 // Layer B — one real server.Service on loopback; scripted raw peers log in, register proxies, ask:
 //
-//	slogin <rid> <user>                             => ok | err
+//	slogin <rid> <user> <n>                         => ok | err      (Login.Hostname = "c<n>": the identity of this control;
+//	                                                   the run id may be one that is still registered: re-login, the
+//	                                                   old control is replaced)
 //	slogout <rid>                                   => -
 //	sreg <rid> <kind> <name> <sk> <allow> <ec>      => ok | exists | err:<text>
 //	sclose <rid> <name>                             => -
 //	svis <ridClaimed> <name> <ts> <sign> <ec> <id>  => ok:<owner rid>:echo | err:<kind> req=<rids that got ReqWorkConn | ->
-//	snat <rid> <name> <ts> <sign> pc=<b> ua=<b>     => preok req=- | sid:<owner rid> | err:<kind> req=…
+//	                                                   then " cm=<n | ->": the control the ControlManager itself holds under the
+//	                                                   claimed run id right after the answer (Service.VerifSessDump)
+//	snat <rid> <name> <ts> <sign> pc=<b> ua=<b>     => preok req=- | sid:<owner rid> | err:<kind> req=… , then " left=…"
 //
 // ua= is the generator's note whether the user is in the proxy's allow list (checked by the driver).
 type visAddr struct{ id int }
@@ -596,19 +608,7 @@ func visExec(tok []string) string {
 				break collect
 			}
 		}
-		left := 0
-		for _, sid := range st.nc.VerifSessions() {
-			if d, ok := st.pendingNat[sid]; ok {
-				select {
-				case <-d:
-					delete(st.pendingNat, sid)
-					left++ // handler finished but the session is still stored
-				default: // in flight, legitimately stored
-				}
-				continue
-			}
-			left++
-		}
+		left := st.natLeft()
 		t.mu.Lock()
 		msgs := append([]*msg.NatHoleResp{}, t.msgs...)
 		t.mu.Unlock()
@@ -624,8 +624,105 @@ func visExec(tok []string) string {
 			r = fmt.Sprintf("odd:ev=%d,msg=%d", len(evs), len(msgs))
 		}
 		return r + " left=" + strconv.Itoa(left)
+	case "natflood":
+		ts, _ := strconv.ParseInt(tok[2], 10, 64)
+		k := atoi(tok[7])
+		if k < 1 || k > 48 {
+			return "bad-k"
+		}
+		var wg sync.WaitGroup
+		allDone := make(chan struct{})
+		tr := make([]*capT, k)
+		for i := 0; i < k; i++ {
+			tr[i] = newCapT()
+			m := &msg.NatHoleVisitor{TransactionID: "t" + strconv.Itoa(i), ProxyName: unhx(tok[1]), SignKey: unhx(tok[3]), Timestamp: ts,
+				PreCheck: tok[5] == "pc=1", Protocol: "quic", MappedAddrs: []string{"1.2.3.4:5"}}
+			wg.Add(1)
+			go func(t *capT) {
+				defer wg.Done()
+				st.nc.HandleVisitor(m, t, unhx(tok[4]))
+			}(tr[i])
+		}
+		go func() { wg.Wait(); close(allDone) }()
+		// every handler either answers its visitor or notifies an owner loop
+		evs := []string{}
+		answered := func() int {
+			n := 0
+			for _, t := range tr {
+				n += t.count()
+			}
+			return n
+		}
+		deadline := time.After(4 * time.Second)
+	wait:
+		for answered()+len(evs) < k {
+			select {
+			case ev := <-st.events:
+				evs = append(evs, ev[0])
+				st.pendingNat[ev[1]] = allDone
+			case <-allDone:
+				if answered()+len(evs) < k && len(st.events) == 0 {
+					break wait
+				}
+			case <-time.After(200 * time.Microsecond):
+			case <-deadline:
+				return "hang"
+			}
+		}
+		if len(evs) == 0 {
+			select { // refused requests: their handlers are over when they have answered; do not look at the table earlier
+			case <-allDone:
+			case <-time.After(2 * time.Second):
+			}
+		}
+		cls := map[string]int{}
+		for _, e := range evs {
+			cls["sid:"+e]++
+		}
+		for _, t := range tr {
+			t.mu.Lock()
+			for _, m := range t.msgs {
+				if m.Error == "" {
+					cls["preok"]++
+				} else {
+					cls["err:"+visErrClass(m.Error)]++
+				}
+			}
+			t.mu.Unlock()
+		}
+		keys := lo.Keys(cls)
+		sort.Strings(keys)
+		r := ""
+		if len(keys) == 1 && cls[keys[0]] == k {
+			r = keys[0] + "*" + strconv.Itoa(k)
+		} else {
+			parts := []string{}
+			for _, c := range keys {
+				parts = append(parts, c+"*"+strconv.Itoa(cls[c]))
+			}
+			r = "mixed:" + strings.Join(parts, ",")
+		}
+		return r + " left=" + strconv.Itoa(st.natLeft())
 	}
 	return visExecB(tok)
+}
+
+// sessions stored in the controller that do not belong to a granted visit whose handler is still running
+func (st *visState) natLeft() int {
+	left := 0
+	for _, sid := range st.nc.VerifSessions() {
+		if d, ok := st.pendingNat[sid]; ok {
+			select {
+			case <-d:
+				delete(st.pendingNat, sid)
+				left++ // handler finished but the session is still stored
+			default: // in flight, legitimately stored
+			}
+			continue
+		}
+		left++
+	}
+	return left
 }
 
 // ------------------------------------------------------------------------------------ layer B
@@ -650,6 +747,8 @@ type visSvc struct {
 	addr   string
 	peers  map[string]*visPeer
 	tid    int
+	nat    *nathole.Controller  // the service's own NAT-hole controller
+	natSid map[string]time.Time // sids the harness saw granted (NatHoleSid on the owner's work connection), with the time
 }
 
 var vsvc *visSvc
@@ -672,8 +771,47 @@ func visStartSvc() *visSvc {
 	}
 	ctx, cancel := context.WithCancel(context.Background())
 	go svr.Run(ctx)
-	vsvc = &visSvc{svr: svr, cancel: cancel, addr: fmt.Sprintf("127.0.0.1:%d", cfg.BindPort), peers: map[string]*visPeer{}}
+	vsvc = &visSvc{svr: svr, cancel: cancel, addr: fmt.Sprintf("127.0.0.1:%d", cfg.BindPort), peers: map[string]*visPeer{},
+		nat: visSvcNat(svr), natSid: map[string]time.Time{}}
 	return vsvc
+}
+
+// Service.rc is not exported; the controller in it is (read-only use: VerifSessions)
+func visSvcNat(svr *server.Service) *nathole.Controller {
+	f := reflect.ValueOf(svr).Elem().FieldByName("rc")
+	if !f.IsValid() {
+		panic("infra: server.Service has no field rc")
+	}
+	rc := reflect.NewAt(f.Type(), unsafe.Pointer(f.UnsafeAddr())).Elem().Interface().(*controller.ResourceController)
+	return rc.NatHoleController
+}
+
+// sessions in the service's controller that are not granted visits still within their handler's life time
+// (NatHoleTimeout = 1 s: the handler waits that long for the owner's NatHoleClient and then removes its session)
+func (s *visSvc) natLeft() int {
+	left := 0
+	for _, sid := range s.nat.VerifSessions() {
+		if t0, ok := s.natSid[sid]; ok && time.Since(t0) < 2500*time.Millisecond {
+			continue
+		}
+		left++
+	}
+	for sid, t0 := range s.natSid {
+		if time.Since(t0) > 10*time.Second {
+			delete(s.natSid, sid)
+		}
+	}
+	return left
+}
+
+// the control the ControlManager holds under a run id: its Login.Hostname is "c<n>"
+func (s *visSvc) designated(rid string) string {
+	byRun, _ := s.svr.VerifSessDump()
+	h, ok := byRun[rid]
+	if !ok || !strings.HasPrefix(h, "c") {
+		return "-"
+	}
+	return h[1:]
 }
 
 func (s *visSvc) dial() net.Conn {
@@ -820,12 +958,18 @@ func visExecB(tok []string) string {
 		c := s.dial()
 		ts := time.Now().Unix()
 		_ = c.SetDeadline(time.Now().Add(5 * time.Second))
-		_ = msg.WriteMsg(c, &msg.Login{Version: version.Full(), User: user, RunID: rid, Timestamp: ts,
+		_ = msg.WriteMsg(c, &msg.Login{Version: version.Full(), Hostname: "c" + tok[3], User: user, RunID: rid, Timestamp: ts,
 			PrivilegeKey: util.GetAuthKey("", ts)})
 		var lr msg.LoginResp
 		if err := msg.ReadMsgInto(c, &lr); err != nil || lr.Error != "" || lr.RunID != rid {
 			c.Close()
 			return "err"
+		}
+		if old := s.peers[rid]; old != nil {
+			// re-login: the server has replaced the old control (its connection is closed, its proxies are gone:
+			// RegisterControl answers only after oldCtl.WaitClosed())
+			old.conn.Close()
+			delete(s.peers, rid)
 		}
 		_ = c.SetDeadline(time.Time{})
 		crw, err := netpkg.NewCryptoReadWriter(c, []byte(""))
@@ -888,6 +1032,15 @@ func visExecB(tok []string) string {
 		delete(p.proxies, unhx(tok[2]))
 		return "-"
 	case "svis":
+		return visSvis(s, tok) + " cm=" + s.designated(unhx(tok[1]))
+	case "snat":
+		return visSnat(s, tok) + " left=" + strconv.Itoa(s.natLeft())
+	}
+	return "unknown-op"
+}
+
+func visSvis(s *visSvc, tok []string) string {
+	{
 		name := unhx(tok[2])
 		ts, _ := strconv.ParseInt(tok[3], 10, 64)
 		e, z := tok[5][0] == '1', tok[5][1] == '1'
@@ -933,7 +1086,11 @@ func visExecB(tok []string) string {
 		}
 		s.reqSummary() // consume the replacement ReqWorkConn
 		return res + ":" + echo
-	case "snat":
+	}
+}
+
+func visSnat(s *visSvc, tok []string) string {
+	{
 		p := s.peers[unhx(tok[1])]
 		if p == nil {
 			return "nosession"
@@ -961,10 +1118,10 @@ func visExecB(tok []string) string {
 		if err := msg.ReadMsgInto(wc, &ns); err != nil || ns.Sid == "" {
 			return "sid:" + hx(owner.rid) + ":nosid"
 		}
+		s.natSid[ns.Sid] = time.Now()
 		s.reqSummary()
 		return "sid:" + hx(owner.rid)
 	}
-	return "unknown-op"
 }
 
 // ------------------------------------------------------------------------------------ generator
@@ -1001,6 +1158,8 @@ func visGen(rng *rand.Rand, n int, emit func(string)) {
 	count := 0
 	out := func(s string) { emit(s); count++ }
 	connID := 0
+	ctlN := 0   // identity of the next control (Login.Hostname = "c<n>")
+	freshN := 0 // run ids never used before
 
 	// a signature for (sk, ts), mostly right, sometimes spoiled
 	sign := func(sk string, ts int64, good bool) string {
@@ -1275,7 +1434,13 @@ func visGen(rng *rand.Rand, n int, emit func(string)) {
 						ua = visAllowed(p.allow, user)
 					}
 					sg := sign(sk, ts, rng.Intn(4) > 0)
-					out(fmt.Sprintf("natv %s %d %s %s pc=%d ua=%d", hx(name), ts, hx(sg), hx(user), rng.Intn(2), lo.Ternary(ua, 1, 0)))
+					if rng.Intn(6) == 0 {
+						// a flood: the same request many times at once (refused ones of every kind, sometimes granted ones)
+						out(fmt.Sprintf("natflood %s %d %s %s pc=%d ua=%d %d", hx(name), ts, hx(sg), hx(user), rng.Intn(2),
+							lo.Ternary(ua, 1, 0), 2+rng.Intn(40)))
+					} else {
+						out(fmt.Sprintf("natv %s %d %s %s pc=%d ua=%d", hx(name), ts, hx(sg), hx(user), rng.Intn(2), lo.Ternary(ua, 1, 0)))
+					}
 				}
 			}
 			out("drain")
@@ -1284,19 +1449,121 @@ func visGen(rng *rand.Rand, n int, emit func(string)) {
 		// ---------------------------------------------------- layer B episode
 		sess := map[string]string{} // rid -> user
 		px := map[string]*visGenPx{}
-		rids := []string{"r1", "r2", "r3"}
+		rids := []string{"r1", "r2", "r3", "r4"}
 		busers := []string{"alice", "bob", "", "alice", "carol", "*"}
 		ballows := [][]string{nil, nil, {"alice"}, {"alice", "bob"}, {"*"}, {"bob"}, {""}}
 		bsks := []string{"s1", "s", "s1x", ""}
-		login := func(rid string) {
-			if _, live := sess[rid]; !live {
-				u := pick(rng, busers)
-				out(fmt.Sprintf("slogin %s %s", hx(rid), hx(u)))
-				sess[rid] = u
+		// a login under rid as user u; if the run id is live this is a re-login: frps replaces the control that is
+		// registered under it (its proxies are closed), the run id stands for u from now on
+		loginAs := func(rid, u string) {
+			ctlN++
+			out(fmt.Sprintf("slogin %s %s %d", hx(rid), hx(u), ctlN))
+			sess[rid] = u
+			for k, p := range px {
+				if p.owner == rid {
+					delete(px, k)
+				}
 			}
 		}
-		login("r1")
-		login("r2")
+		logout := func(rid string) {
+			out("slogout " + hx(rid))
+			delete(sess, rid)
+			for k, p := range px {
+				if p.owner == rid {
+					delete(px, k)
+				}
+			}
+		}
+		login := func(rid string) {
+			if _, live := sess[rid]; !live || rng.Intn(3) == 0 {
+				loginAs(rid, pick(rng, busers))
+			}
+		}
+		// one stream visitor claiming run id `claim`, signed for the proxy registered under name (mostly correctly)
+		visit := func(claim, name string, goodOdds int) {
+			ts := pick(rng, tss)
+			sk := pick(rng, bsks)
+			if p := px[name]; p != nil {
+				sk = p.sk
+			}
+			sg := sign(sk, ts, rng.Intn(goodOdds) > 0)
+			connID++
+			out(fmt.Sprintf("svis %s %s %d %s %s %d", hx(claim), hx(name), ts, hx(sg), pick(rng, ec), connID))
+		}
+		// The run id changes hands between visits of one proxy: R stands for a user the proxy allows, visits; then the
+		// run id goes to another login (re-login while the first control is still registered | logout, then login |
+		// a run id never seen before), visits again; sometimes it comes back to the first user.
+		handover := func() {
+			owner := pick(rng, rids[:2])
+			if _, live := sess[owner]; !live {
+				loginAs(owner, pick(rng, busers))
+			}
+			name := ""
+			for k, p := range px {
+				if p.owner == owner && !p.nat && (name == "" || k < name) {
+					name = k
+				}
+			}
+			if name == "" || rng.Intn(3) == 0 {
+				name = pick(rng, names[:3])
+				if px[name] == nil {
+					kind := pick(rng, []string{"stcp", "sudp"})
+					sk, al := pick(rng, bsks), pick(rng, ballows)
+					out(fmt.Sprintf("sreg %s %s %s %s %s %s", hx(owner), kind, hx(name), hx(sk), visList(al), pick(rng, ec)))
+					eff := al
+					if len(eff) == 0 {
+						eff = []string{sess[owner]}
+					}
+					px[name] = &visGenPx{sk: sk, allow: eff, owner: owner}
+				}
+			}
+			p := px[name]
+			r := pick(rng, rids[2:])
+			a := pick(rng, p.allow)
+			if a == "*" {
+				a = pick(rng, busers)
+			}
+			if u, live := sess[r]; !live || u != a {
+				loginAs(r, a)
+			}
+			for k := 1 + rng.Intn(2); k > 0; k-- {
+				visit(r, name, 8)
+			}
+			for round := 1 + rng.Intn(2); round > 0 && px[name] != nil; round-- {
+				b := pick(rng, busers)
+				if rng.Intn(4) > 0 {
+					for k := 0; k < 4 && (b == sess[r] || visAllowed(p.allow, b)); k++ {
+						b = pick(rng, busers)
+					}
+				}
+				switch rng.Intn(5) {
+				case 0, 1, 2:
+					loginAs(r, b)
+				case 3:
+					logout(r)
+					if rng.Intn(4) == 0 {
+						visit(r, name, 8)
+					}
+					loginAs(r, b)
+				default:
+					freshN++
+					r = fmt.Sprintf("f%d", freshN)
+					loginAs(r, b)
+				}
+				for k := 1 + rng.Intn(2); k > 0; k-- {
+					visit(r, name, 8)
+				}
+				if rng.Intn(3) == 0 {
+					loginAs(r, a)
+					visit(r, name, 8)
+				}
+			}
+			if len(r) > 1 && r[0] == 'f' {
+				logout(r)
+			}
+		}
+		loginAs("r1", pick(rng, busers))
+		loginAs("r2", pick(rng, busers))
 		steps := 14 + rng.Intn(24)
 		liveRid := func(dflt string) string {
 			ks := make([]string, 0, len(sess))
@@ -1335,17 +1602,13 @@ func visGen(rng *rand.Rand, n int, emit func(string)) {
 				name = livePx(true, name)
 			}
 			switch {
-			case r < 8:
+			case r < 6:
 				login(rid)
+			case r < 9:
+				handover()
 			case r < 12:
 				if _, live := sess[rid]; live {
-					out("slogout " + hx(rid))
-					delete(sess, rid)
-					for k, p := range px {
-						if p.owner == rid {
-							delete(px, k)
-						}
-					}
+					logout(rid)
 				}
 			case r < 32:
 				if u, live := sess[rid]; live {
